@@ -395,13 +395,13 @@ def _mutants():
         M("iter-no-step", T, "ret = self.get_samples_for_epoch(self.epoch)\nself.epoch += 1",
           "ret = self.get_samples_for_epoch(self.epoch)", "G10/S2"),
         M("islice-stop-total", T, "islice(ret, self._rank, self.effective_total, self._world_size)",
-          "islice(ret, self._rank, self.total, self._world_size)", "slice-triple"),
+          "islice(ret, self._rank, self.total, self._world_size)", "G12/S3"),
         M("islice-start-0", T, "islice(ret, self._rank, self.effective_total, self._world_size)",
-          "islice(ret, 0, self.effective_total, self._world_size)", "slice-triple"),
+          "islice(ret, 0, self.effective_total, self._world_size)", "G12/S3"),
         M("len-off-by-one", T, "(self.effective_total - self._rank + self._world_size - 1) // self._world_size",
-          "(self.effective_total - self._rank + self._world_size) // self._world_size", "ceil((stop-start)/step)"),
+          "(self.effective_total - self._rank + self._world_size) // self._world_size", "G12/S3"),
         M("len-ignores-rank", T, "(self.effective_total - self._rank + self._world_size - 1) // self._world_size",
-          "(self.effective_total + self._world_size - 1) // self._world_size", "ceil((stop-start)/step)"),
+          "(self.effective_total + self._world_size - 1) // self._world_size", "G12/S3"),
         M("drop-branch-wrong", T, "self.effective_total = self.total - self.total % self._world_size",
           "self.effective_total = self.total - self._world_size", "drop-branch"),
         M("mode-typo", T, "elif on_uneven_distributed == 'drop':", "elif on_uneven_distributed == 'dorp':", "G8/S4"),
